@@ -11,7 +11,7 @@ import spfiles
 from .base import Prop, exc_name
 
 K = Fraction("4148.808")
-PATHS = ("law", "blk_roll", "blk_valid", "stream", "read_dedisp", "dmt", "dmt_valid", "inverse", "kernel")
+PATHS = ("law", "blk_roll", "blk_valid", "stream", "read_dedisp", "dmt", "dmt_valid", "inverse", "twice", "rd_then", "kernel")
 
 
 def exact_delay(dm, f32, fref, tsamp):
@@ -112,7 +112,7 @@ class C09(Prop):
         tsamp = rng.choice((1e-3, 64e-6, 5e-4))
         dm = rng.choice((0.0, 1.0, 3.5, 10.0, 15.0, 25.0, 40.0, -2.0, -10.0, -15.0))
         ref = rng.choice(("ch1", "ch1", "max", "min", "center", "num", "num-above", "num-below"))
-        n = rng.choice((8, 16, 40, 100)) if path != "read_dedisp" else rng.choice((1, 2, 3, 8, 16, 40))
+        n = rng.choice((8, 16, 40, 100)) if path not in ("read_dedisp", "rd_then") else rng.choice((1, 2, 3, 8, 16, 40))
         return {"path": path, "C": C, "foff": foff, "fch1": fch1, "tsamp": tsamp, "dm": dm, "ref": ref, "n": n,
                 "ndm": rng.choice((1, 3, 3, 8, 33, 64)), "s": rng.choice((0, 2)), "g": rng.choice((3, 7, 64))}
 
@@ -168,10 +168,10 @@ class C09(Prop):
                 return res
             # the block paths take the reference frequency (in-band references give delays of both signs);
             # the streamed paths always use the first channel
-            bref = ref if path in ("blk_roll", "blk_valid", "inverse", "dmt", "dmt_valid") else "ch1"
+            bref = ref if path in ("blk_roll", "blk_valid", "inverse", "twice", "dmt", "dmt_valid") else "ch1"
             d = np.atleast_1d(h.get_dmdelays(dm, ref_freq=bref))
             res["delays"] = [int(v) for v in d]
-            if int(np.abs(d).max()) >= n and path != "read_dedisp":
+            if int(np.abs(d).max()) >= n and path not in ("read_dedisp", "rd_then"):
                 return {"skip": True}
             blk = FilterbankBlock(x.T.astype(np.float32), h)
             if path == "blk_roll":
@@ -184,6 +184,10 @@ class C09(Prop):
                 res.update(data=[float(v) for v in o.data.ravel()], shape=list(o.data.shape), dmrep=float(o.dm))
             elif path == "inverse":
                 o = blk.dedisperse(dm, ref_freq=bref).dedisperse(-dm, ref_freq=bref)
+                res.update(data=[float(v) for v in o.data.ravel()], shape=list(o.data.shape))
+            elif path == "twice":
+                # every call applies the full delay of ITS dm to ITS input, whatever DM label the input carries
+                o = blk.dedisperse(dm, ref_freq=bref).dedisperse(dm, ref_freq=bref)
                 res.update(data=[float(v) for v in o.data.ravel()], shape=list(o.data.shape))
             elif path in ("dmt", "dmt_valid"):
                 dd0 = np.atleast_2d(h.get_dmdelays(dm + np.linspace(-dm, dm, case["ndm"]), ref_freq=bref))
@@ -210,6 +214,8 @@ class C09(Prop):
                         if lo < 0 or hi > N:
                             return {"skip": True}
                         o = fil.read_dedisp_block(s, n, dm)
+                        if path == "rd_then":
+                            o = o.dedisperse(dm)
                         res.update(data=[float(v) for v in o.data.ravel()], shape=list(o.data.shape), dmrep=float(o.dm))
                 finally:
                     fil._file.close()
@@ -262,6 +268,8 @@ class C09(Prop):
             want = np.array([[x[c, t + off + d[c]] for t in range(L)] for c in range(C)])
         elif path == "inverse":
             want = x
+        elif path == "twice":
+            want = np.array([[x[c, (t + 2 * d[c]) % n] for t in range(n)] for c in range(C)])
         elif path in ("dmt", "dmt_valid"):
             D = obs["ddelays"]
             if path == "dmt":
@@ -279,6 +287,8 @@ class C09(Prop):
             if path == "stream":
                 L = n - md - off
                 want = np.array([[sum(xx[c, s + t + off + d[c]] for c in range(C)) for t in range(L)]])
+            elif path == "rd_then":
+                want = np.array([[xx[c, s + (t + d[c]) % n + d[c]] for t in range(n)] for c in range(C)])
             else:
                 want = np.array([[xx[c, s + t + d[c]] for t in range(n)] for c in range(C)])
         if list(got.shape) != list(want.shape):
@@ -306,6 +316,8 @@ class C09(Prop):
             outr, outc = (obs["shape"] if not obs.get("rejected") else (1, 1))
             sh = " ".join(map(str, case["sh"])) or "0"
             return [f"KB {case['kern']} {rows} {cols} {case['nsh']} {outr} {outc} | {' '.join(str(int(v)) for v in x)} | {sh}"]
+        if path in ("twice", "rd_then"):
+            return []
         if path == "law":
             return [f"C09 delay {self._q(case['dm'])} {self._q(f)} {self._q(obs['fref'])} {self._q(case['tsamp'])}"
                     for f in obs["freqs"]]
